@@ -359,7 +359,7 @@ func ruleP3(c *Ctx) *RuleResult {
 	segF := c.Field("", "muxerStream", "segments")
 	partsF := c.Field("", "muxerSegmentFMP4", "parts")
 	partPathF := c.Field("", "muxerPart", "path")
-	unreg := c.Method("", "muxerServer", "unregisterPath")
+	unreg := c.pathTableFn("unregister")
 	if segF == nil || partsF == nil || partPathF == nil || unreg == nil {
 		r.undecided("muxerStream.segments / muxerSegmentFMP4.parts / muxerPart.path / unregisterPath not found")
 		return r
@@ -688,7 +688,7 @@ func ruleP4(c *Ctx) *RuleResult {
 				bodies = append(bodies, in)
 			}
 			if call, ok := in.(*ssa.Call); ok {
-				if isFuncNamed(call.Call.StaticCallee(), "io", "Copy") && typeIs(stripConv(call.Call.Args[0]).Type(), "net/http", "ResponseWriter") {
+				if (isFuncNamed(call.Call.StaticCallee(), "io", "Copy") || isFuncNamed(call.Call.StaticCallee(), "io", "CopyBuffer")) && typeIs(stripConv(call.Call.Args[0]).Type(), "net/http", "ResponseWriter") {
 					bodies = append(bodies, in)
 				}
 				if isMethodNamed(call.Call.StaticCallee(), "net/http", "Header", "Set") {
@@ -773,7 +773,7 @@ func ruleP4(c *Ctx) *RuleResult {
 				if !ok || call.Call.StaticCallee() != fn {
 					return
 				}
-				conds := ifsOn(par, func(v ssa.Value) bool {
+				conds := ifsOnV(par, func(v ssa.Value) bool {
 					bo, ok := v.(*ssa.BinOp)
 					if !ok || bo.Op != token.NEQ {
 						return false
